@@ -23,6 +23,9 @@ type XStore struct {
 	txBegun        int
 	mutUnderCursor int
 	perturb        func()
+	// onWriteBegin, when set, runs once immediately before the next write transaction is opened (an interloper: another
+	// client's operation that commits between a caller's preparation and its transaction)
+	onWriteBegin func()
 }
 
 var errInjected = errors.New("injected store fault")
@@ -78,6 +81,15 @@ func (s *XStore) Begin(update bool) (store.Tx, error) {
 	s.mu.Unlock()
 	if s.step(lbl) {
 		return nil, errInjected
+	}
+	if update {
+		s.mu.Lock()
+		h := s.onWriteBegin
+		s.onWriteBegin = nil
+		s.mu.Unlock()
+		if h != nil {
+			h()
+		}
 	}
 	tx, err := s.inner.Begin(update)
 	if err != nil {
